@@ -35,6 +35,9 @@ pub struct Case {
     /// a flusher client calls FlushHotTier(force) in a loop
     pub flusher: bool,
     pub cosine: bool,
+    /// every n-th operation of the writer is a Delete instead of an overwrite (0 = never)
+    #[serde(default)]
+    pub delete_every: u32,
 }
 
 pub struct C05Srv;
@@ -63,6 +66,10 @@ fn ver_of(v: &[f32], cosine: bool) -> Option<u32> {
     }
 }
 
+fn is_delete(case: &Case, op: u32) -> bool {
+    case.delete_every > 0 && op % case.delete_every == 0
+}
+
 #[derive(Debug)]
 struct Obs {
     kind: Reader,
@@ -85,7 +92,7 @@ impl Prop for C05Srv {
         4
     }
     fn rule(&self) -> String {
-        "real server; one writer client overwriting one id 150-600 times (version in vector and metadata) against 1-2 reader clients (Query / BulkQuery with embeddings), optional flusher client; non-trivial = at least 20 reads completed while the writer was running and at least two distinct versions were observed; distinct = hash of decoded case".into()
+        "real server; one writer client running 150-600 sequential operations on one id (overwrites with the version in vector and metadata; every 2nd/3rd/7th operation a delete in 3 cases of 5) against 1-2 reader clients (Query / BulkQuery with embeddings), optional flusher client; non-trivial = at least 20 reads completed while the writer was running and at least two distinct versions were observed; distinct = hash of decoded case".into()
     }
     fn decode(&self, raw: &Raw, _tier: Tier) -> Case {
         let mut t = Tape::new(&raw.head);
@@ -96,7 +103,8 @@ impl Prop for C05Srv {
         }
         let flusher = t.chance(96);
         let cosine = t.chance(64);
-        Case { writes, readers, flusher, cosine }
+        let delete_every = t.pick(&[0u32, 0, 2, 3, 7]);
+        Case { writes, readers, flusher, cosine, delete_every }
     }
 
     fn run(&self, case: &Case, env: &CaseEnv) -> Result<CaseReport, Failure> {
@@ -123,6 +131,13 @@ impl Prop for C05Srv {
                         let mut metadata = std::collections::HashMap::new();
                         metadata.insert("v".to_string(), ver.to_string());
                         sent.store(ver, Ordering::SeqCst);
+                        if is_delete(case, ver) {
+                            match c.delete(with_key(pb::DeleteRequest { doc_id: ID, namespace: String::new() }, None)).await {
+                                Ok(_) => acked.store(ver, Ordering::SeqCst),
+                                Err(s) => return Err(format!("delete {} failed: {:?} {}", ver, s.code(), s.message())),
+                            }
+                            continue;
+                        }
                         let r = c.insert(with_key(pb::InsertRequest { doc_id: ID, embedding: vec_for(ver, cosine), metadata, namespace: String::new() }, None)).await;
                         match r {
                             Ok(x) if x.get_ref().success => acked.store(ver, Ordering::SeqCst),
@@ -208,10 +223,19 @@ impl Prop for C05Srv {
             return Err(Failure::new("setup_failed", format!("(writer could not complete, not judged) {}", e)));
         }
         let mut versions = std::collections::BTreeSet::new();
+        let mut absent_seen = 0u64;
         for o in &all_obs {
             let ctx = |msg: &str| format!("{:?} read (began after write {} was acknowledged, returned after write {} was sent): {}", o.kind, o.acked_before, o.sent_after, msg);
+            // single sequential writer: the state after operation j is "absent" if j is a delete,
+            // otherwise version j; a read overlapping operations acked_before+1 ..= sent_after may
+            // return the state after any j in acked_before ..= sent_after
+            let window = o.acked_before..=o.sent_after;
             if !o.found {
-                return Err(Failure::new("read_misses_live_document", ctx("found=false although the id is never deleted")).with_sig(json!({"kind": "read_misses_live_document", "level": "server", "rpc": format!("{:?}", o.kind)})));
+                if !window.clone().any(|j| is_delete(case, j)) {
+                    return Err(Failure::new("read_misses_live_document", ctx("found=false although no delete lies in that window")).with_sig(json!({"kind": "read_misses_live_document", "level": "server", "rpc": format!("{:?}", o.kind)})));
+                }
+                absent_seen += 1;
+                continue;
             }
             let (Some(vv), Some(mv)) = (o.vec_ver, o.meta_ver) else {
                 return Err(Failure::new("read_returns_unwritten_value", ctx(&format!("vector version {:?}, metadata version {:?}", o.vec_ver, o.meta_ver))).with_sig(json!({"kind": "read_returns_unwritten_value", "level": "server"})));
@@ -219,8 +243,11 @@ impl Prop for C05Srv {
             if vv != mv {
                 return Err(Failure::new("torn_read", ctx(&format!("the vector is the one of write {}, the metadata the one of write {}", vv, mv))).with_sig(json!({"kind": "torn_read", "level": "server", "rpc": format!("{:?}", o.kind)})));
             }
+            if is_delete(case, vv) || vv == 0 {
+                return Err(Failure::new("read_returns_unwritten_value", ctx(&format!("returned version {} which was never written", vv))).with_sig(json!({"kind": "read_returns_unwritten_value", "level": "server"})));
+            }
             if vv < o.acked_before {
-                return Err(Failure::new("stale_read", ctx(&format!("returned version {}", vv))).with_sig(json!({"kind": "stale_read", "level": "server", "rpc": format!("{:?}", o.kind)})));
+                return Err(Failure::new("stale_read", ctx(&format!("returned version {} (a later write or delete had completed before the read began)", vv))).with_sig(json!({"kind": "stale_read", "level": "server", "rpc": format!("{:?}", o.kind)})));
             }
             if vv > o.sent_after {
                 return Err(Failure::new("read_returns_unwritten_value", ctx(&format!("returned version {} which had not been sent", vv))).with_sig(json!({"kind": "read_returns_unwritten_value", "level": "server"})));
@@ -228,6 +255,10 @@ impl Prop for C05Srv {
             versions.insert(vv);
         }
         rep.count("reads_during_writes", all_obs.len() as u64);
+        rep.count("reads_answering_absent_inside_a_delete_window", absent_seen);
+        if case.delete_every > 0 {
+            rep.label("writer_with_deletes");
+        }
         rep.count("distinct_versions_observed", versions.len() as u64);
         if all_obs.len() >= 20 && versions.len() >= 2 {
             rep.nontrivial = true;
